@@ -122,6 +122,22 @@ for t in range(30):
         one = s.integrate(w[i] - 1e-9, w[i] + 1e-9, method='trapz')      # a single sample inside: nothing to integrate
         a.check(bool(abs(got - want) <= 1e-12 * max(1.0, abs(want)) and one == 0), {'bounds_between_samples': t, 'got': float(got), 'expected': float(want)})
 
+for unit, scale in (('m', 1e-9), ('um', 1e-3), ('angstrom', 10.0)):
+    # the same closed-range selection whatever the unit the grid is stored in (a metre-scale grid has spacings far
+    # below numpy's default absolute tolerances)
+    for t in range(10):
+        with a.case({'unit': unit, 'case': t}):
+            s = rand_spectrum()
+            w, v = s.wave.copy() * scale, s.value.copy()
+            su = Spectrum(w.copy(), v.copy(), unit)
+            i, j = sorted(rng.choice(np.arange(1, w.size - 1), size=2, replace=False))
+            lo, hi = w[i] - 0.37 * (w[i] - w[i - 1]), w[j] + 0.41 * (w[j + 1] - w[j])
+            want = np.trapz(v[i:j + 1], w[i:j + 1])
+            got = su.integrate(lo, hi, method='trapz')
+            at_samples = su.integrate(w[i], w[j], method='trapz')
+            a.check(bool(abs(got - want) <= 1e-12 * max(abs(want), 1e-300) + 1e-30 and abs(at_samples - want) <= 1e-12 * abs(want) + 1e-30),
+                    {'unit': unit, 'case': t, 'got': float(got), 'expected': float(want)})
+
 d = Bounded('C15::crop_closed_range_at_sample_points', 'all pairs of sample wavelengths (i <= j) of 3 random spectra as crop limits, plus limits just inside / outside a sample',
             'crop keeps exactly the samples inside the closed requested range: a sample equal to either limit is kept')
 for t in range(3):
